@@ -208,9 +208,14 @@ structure Var where
   set : Bool       -- Variable.Set: what `IsSet` reports, and what the `unset` builtin looks at
   str : Str
   arr : Arr
+  /-- `Variable.List == nil` although the variable is an array: what `read -a` and `mapfile` store
+      when there is no field / line (array literals store `[]string{}` instead).  The expansion
+      code tells the two apart: `"${a[@]}"` of a nil list yields one empty field (finding
+      C33-empty-read-array-one-field); `unset 'a[i]'` keeps a nil list nil. -/
+  nilList : Bool
   deriving DecidableEq, Repr
 
-def Var.zero : Var := ⟨.unknown, false, [], ⟨[], none⟩⟩
+def Var.zero : Var := ⟨.unknown, false, [], ⟨[], none⟩, false⟩
 
 /-- One element of an array literal: `w` or `[i]=w` (indices already evaluated). -/
 inductive Elem where
@@ -261,7 +266,7 @@ def setWithIndex (v : Var) (base : Arr) (k : Int) (valStr : Str) : Res Var :=
   let k' := if k < 0 then k + (indexedMax base + 1) else k
   if k' < 0 then .ok v
   else match setElem base k' valStr with
-    | .ok a' => .ok ⟨.indexed, true, v.str, a'⟩
+    | .ok a' => .ok ⟨.indexed, true, v.str, a', false⟩
     | .panic => .panic
 
 def optStr : Option Str → Str
@@ -278,7 +283,7 @@ def appendWithIndex (v : Var) (base : Arr) (k : Int) (s : Str) : Res Var :=
     | .panic => .panic
     | .ok cur =>
       match setElem base k' (optStr cur ++ s) with
-      | .ok a' => .ok ⟨.indexed, true, v.str, a'⟩
+      | .ok a' => .ok ⟨.indexed, true, v.str, a', false⟩
       | .panic => .panic
 
 /-- `assignVal`'s `a+=s` on an indexed array: "Appends to the element at index 0". -/
@@ -294,7 +299,7 @@ def appendZero (a : Arr) (s : Str) : Res Arr :=
 
 /-- The array variable `assignVal` returns (`prev.Set = true`), stored as is. -/
 def liftArr (v : Var) : Res Arr → Res Var
-  | .ok a => .ok ⟨.indexed, true, v.str, a⟩
+  | .ok a => .ok ⟨.indexed, true, v.str, a, false⟩
   | .panic => .panic
 
 /-- One assignment / unset statement on one variable: `assignVal` followed by `setVarWithIndex`
@@ -306,11 +311,11 @@ def applyOp (v : Var) : Op → Res Var
   | .setStr s =>
     match v.kind with
     | .indexed => setWithIndex v v.arr 0 s          -- "fall back to the zero value for the index"
-    | _ => .ok ⟨.str, true, s, v.arr⟩
+    | _ => .ok ⟨.str, true, s, v.arr, v.nilList⟩
   | .appStr s =>
     match v.kind with
     | .indexed => liftArr v (appendZero v.arr s)
-    | _ => .ok ⟨.str, true, v.str ++ s, v.arr⟩
+    | _ => .ok ⟨.str, true, v.str ++ s, v.arr, v.nilList⟩
   | .appElem i s => appendWithIndex v (baseArr v) i s
   | .unsetElem i =>
     match v.kind with
@@ -318,17 +323,17 @@ def applyOp (v : Var) : Op → Res Var
       let k := if i < 0 then i + (indexedMax v.arr + 1) else i
       if k < 0 then .ok v
       else match deleteElem v.arr k with
-        | .ok a' => .ok ⟨.indexed, v.set, v.str, a'⟩
+        | .ok a' => .ok ⟨.indexed, v.set, v.str, a', v.nilList⟩
         | .panic => .panic
     | .str => if i = 0 then .ok Var.zero else .ok v    -- only the literal subscript "0" deletes
     | .unknown => .ok v
   | .unsetAll => if v.set then .ok Var.zero else .ok v   -- builtin unset: `lookupVar(arg).IsSet()`
   -- builtin read -a: `r.setVar(arrayName, expand.Variable{Set: true, Kind: Indexed, List: values})`,
   -- a fresh variable: nil Indexes, empty Str
-  | .readArr vs => .ok ⟨.indexed, true, [], ⟨vs, none⟩⟩
+  | .readArr vs => .ok ⟨.indexed, true, [], ⟨vs, none⟩, vs.isEmpty⟩
   -- builtin mapfile: `var vr expand.Variable; vr.Kind = Indexed; vr.List = append(…)`: also fresh,
   -- but `Set` stays false
-  | .mapfile vs => .ok ⟨.indexed, false, [], ⟨vs, none⟩⟩
+  | .mapfile vs => .ok ⟨.indexed, false, [], ⟨vs, none⟩, vs.isEmpty⟩
 
 def runOps (v : Var) : List Op → Res Var
   | [] => .ok v
